@@ -35,9 +35,12 @@ WHAT = {
     "P6": "pending tags are consumed: a builder that hands self.tags to a model element rebinds self.tags to a fresh list (no sharing, no carry-over to the next statement)",
     "P7": "a doc-string ends only at the delimiter that opened it; the lines in between are its text minus the opening indent",
     "P8": "table cells with pipes survive render (escape_cell) -> parse (split on unescaped pipes, unescape)",
+    "P11": "a container keeps every child it is given - also one that has the same keyword and title as an earlier child (model elements compare equal by title)",
     "P9": "tag lines are read word by word: '@word' -> tag 'word' (any characters), '#word' starts a comment, anything else is a ParserError",
     "P10": "every parse_* entry point can return a model for some text (it is not dead)",
     "E8": "model constructors / add_* called by the parser with file text contain no assertion over that text (only type checks)",
+    "E7": "no regular expression the parser applies to a line of the file is exponentially ambiguous (a backtracking matcher would need time exponential in the line length: parsing would not end)",
+    "E9": "building the error message cannot itself fail: braces, percent signs and format fields in the offending text are copied, never interpreted",
     "E4": "every ParserError raised by the parser carries the current line",
     "E6": "parser terminates: no while loop; only call cycle is action_table <-> action_steps",
 }
@@ -489,6 +492,182 @@ def check_tag_line(chk, ix, tier="quick"):
                              file=f.file, line=f.lineno, stmt="def parse_tags"))
 
 
+def check_parse_tags_entry(chk, ix):
+    """P9 for the module-level entry point parse_tags(text) ("one or more lines"): all tags of all lines, in order."""
+    chk.rule("P9", WHAT["P9"])
+    pc = ix.cls("behave.parser:Parser")
+    f = ix.func("behave.parser:parse_tags")
+    if f is None or pc.lookup("parse_tags") is None:
+        raise AnalysisError("anchor missing: behave.parser:parse_tags / Parser.parse_tags")
+    cases = [("", []), ("@one", ["one"]), ("@one @two", ["one", "two"]), ("@one @two\n@three", ["one", "two", "three"]),
+             ("@a\n\n  @b\n@c @d\n", ["a", "b", "c", "d"]), ("  \n@x", ["x"])]
+    for text, want in cases:
+        made = []
+        tagstub = lambda i, s_, a, k, n: (made.append(a[0]), [(s_, "val", "TAG:" + str(a[0]))])[1]     # noqa: E731
+
+        def parser_ctor(i, s_, a, k, n):
+            return [(s_, "val", s_.alloc(HObj(pc, {"line": 0, "filename": None, "variant": k.get("variant", a[1] if len(a) > 1 else None)}, label="parser")))]
+        it = Interp(ix, stubs={"Tag": tagstub, "model.Tag": tagstub, "Parser": parser_ctor}, name="parse_tags")
+        it.int_sat = 1000
+        it.list_cap = 100
+        st = State()
+        st.frames = []
+        outs = it.call_function(st, f, [text], {}, None)
+        chk.absorb(it)
+        chk.instance("P9")
+        if len(outs) != 1 or outs[0][1] != "val":
+            raise AnalysisError("parse_tags(%r) not foldable: %r" % (text, [(k, v) for _, k, v in outs][:3]))
+        s_, _, v = outs[0]
+        got = None
+        if isinstance(v, Ref) and s_.obj(v).items is not None:
+            got = [str(x)[4:] if isinstance(x, str) and x.startswith("TAG:") else repr(x) for x in s_.obj(v).items]
+        elif isinstance(v, (tuple, list)):
+            got = [str(x)[4:] if isinstance(x, str) and x.startswith("TAG:") else repr(x) for x in v]
+        if got == want:
+            chk.ok("P9", {"parse_tags(text)": text, "tags": want}, nontrivial_key=("entry", text))
+        else:
+            chk.fail(Finding("P9", f.fullname, "%r -> %r" % (text, got), "parse_tags(%r) returns %r; the tags of all its lines are %r"
+                             % (text, got, want), file=f.file, line=f.lineno, stmt="def parse_tags"))
+
+
+def check_model_adders(chk, ix):
+    """P11: Feature.add_rule / add_scenario, Rule.add_scenario called with two DIFFERENT children that have the same keyword
+    and name (two untitled rules, 'Happy path' under two rules ...): both are kept, in order, in every child list."""
+    chk.rule("P11", WHAT["P11"])
+    cases = [("Feature", "add_rule", "Rule", ("rules", "run_items")), ("Feature", "add_scenario", "Scenario", ("scenarios", "run_items")),
+             ("Rule", "add_scenario", "Scenario", ("scenarios", "run_items")), ("Feature", "add_scenario", "ScenarioOutline", ("scenarios", "run_items"))]
+    for owner, meth, child, lists in cases:
+        oc, cc = ix.cls("behave.model:" + owner), ix.cls("behave.model:" + child)
+        f = oc.lookup(meth)
+        if f is None:
+            raise AnalysisError("anchor missing: %s.%s" % (owner, meth))
+        st = State()
+        st.frames = []
+
+        def lst():
+            return st.alloc(HObj("list", kind="list", items=[]))
+        me = st.alloc(HObj(oc, {"keyword": owner, "name": "owner", "rules": lst(), "scenarios": lst(), "run_items": lst(), "background": None,
+                                "feature": None, "parent": None, "filename": "x.feature", "line": 1, "tags": lst()}, label="owner"))
+        kids = []
+        for i in (1, 2):
+            kids.append(st.alloc(HObj(cc, {"keyword": child, "name": "same title", "parent": None, "feature": None, "background": None,
+                                           "filename": "x.feature", "line": 10 * i, "tags": lst(), "scenarios": lst(), "run_items": lst(),
+                                           "steps": lst()}, label="child%d" % i)))
+        it = Interp(ix, name="%s.%s" % (owner, meth))
+        cur = st
+        for kid in kids:
+            outs = it.call_function(cur, f, [kid], {}, None, self_val=me)
+            if len(outs) != 1 or outs[0][1] != "val":
+                raise AnalysisError("%s.%s not evaluable on tokens: %r" % (owner, meth, [(k, v) for _, k, v in outs][:3]))
+            cur = outs[0][0]
+        chk.absorb(it)
+        for ln in lists:
+            chk.instance("P11")
+            v = cur.obj(me).fields.get(ln)
+            items = cur.obj(v).items if isinstance(v, Ref) else None
+            got = [cur.obj(x).label for x in (items or []) if isinstance(x, Ref)]
+            if got == ["child1", "child2"]:
+                chk.ok("P11", {"call": "%s.%s(%s) twice, equal titles" % (owner, meth, child), ln: got}, nontrivial_key=(owner, meth, child, ln))
+            else:
+                chk.fail(Finding("P11", f.fullname, "%s %s: %s" % (child, ln, got),
+                                 "%s.%s called with two different %s objects that have the same keyword and title leaves %s = %s; both must be "
+                                 "kept (the second one, its background and its scenarios would silently vanish from the run)" % (owner, meth, child, ln, got),
+                                 file=f.file, line=f.lineno, stmt="def " + meth))
+
+
+def regex_literals(ix, mod):
+    """(pattern, flags-expression, line, context) for every constant pattern handed to the re module in `mod`"""
+    out = []
+    fns = ("compile", "match", "search", "split", "sub", "subn", "findall", "finditer", "fullmatch")
+    for n in ast.walk(mod.tree):
+        if isinstance(n, ast.Call) and isinstance(n.func, ast.Attribute) and n.func.attr in fns and n.args:
+            r = ix.resolve_expr(mod, n.func.value) if isinstance(n.func.value, (ast.Name, ast.Attribute)) else None
+            if not (isinstance(r, tuple) and r[0] == "ext" and r[1] == "re"):
+                continue
+            try:
+                pat = ix.fold(n.args[0], mod)
+            except NotConst:
+                continue
+            if isinstance(pat, str):
+                flags = 0
+                import re as _re
+                for a in list(n.args[1:]) + [k.value for k in n.keywords]:
+                    for nm in ast.walk(a):
+                        if isinstance(nm, ast.Attribute) and nm.attr in ("IGNORECASE", "I", "DOTALL", "S", "MULTILINE", "M", "VERBOSE", "X", "UNICODE", "U"):
+                            flags |= getattr(_re, nm.attr)
+                out.append((pat, flags, n.lineno, "re.%s" % n.func.attr))
+    return out
+
+
+def check_regex_ambiguity(chk, ix, modules=("behave.parser",), rule="E7", floor=2):
+    from . import regex_amb
+    chk.rule(rule, WHAT["E7"])
+    for ctl, want in ((r"(a+)+$", True), (r"^\|((?:[^|]|\\\|)*\|)*$", True), (r"^(|.+)\|$", False)):
+        r = regex_amb.analyse(ctl)
+        if r is None or r["eda"] is not want:
+            raise AnalysisError("%s self-test: %r is analysed as %r" % (rule, ctl, r))
+    n = 0
+    for mname in modules:
+        mod = ix.module(mname)
+        for (pat, flags, line, ctx) in regex_literals(ix, mod):
+            n += 1
+            chk.instance(rule)
+            r = regex_amb.analyse(pat, flags)
+            if r is None:
+                chk.ok(rule, {"pattern": pat, "at": "%s:%d" % (mod.relpath, line), "verdict": "not modelled (look-around / back-reference): not decided"})
+                chk.notes.append("%s: pattern %r at %s:%d uses constructs the ambiguity analysis does not model; not decided" % (rule, pat, mod.relpath, line))
+            elif not r["eda"]:
+                chk.ok(rule, {"pattern": pat, "at": "%s:%d" % (mod.relpath, line), "positions": r["positions"], "exponentially ambiguous": False},
+                       nontrivial_key=(mname, pat))
+            else:
+                chk.fail(Finding(rule, "%s:<%s>" % (mname, ctx), "pattern %s" % pat,
+                                 "the pattern %r (%s at line %d) is exponentially ambiguous: from %s the same text can continue through %s or through "
+                                 "%s and come back; on a line that almost matches, re tries all combinations (time doubles with every repetition)"
+                                 % (pat, ctx, line, r["state"], r["diverges_into"][0], r["diverges_into"][1]), file=mod.relpath, line=line, stmt=ctx))
+    if n < floor:
+        raise AnalysisError("%s: only %d constant patterns found in %s" % (rule, n, ", ".join(modules)))
+
+
+def check_error_message_hostile(chk, ix):
+    """E9: ParserError.make_annotated evaluated on texts that look like format strings (constant folding)."""
+    chk.rule("E9", WHAT["E9"])
+    ec = ix.cls("behave.parser:ParserError")
+    f = ec.lookup("make_annotated")
+    if f is None:
+        raise AnalysisError("anchor missing: ParserError.make_annotated")
+    hostile = ["{", "}", "{x}", "{0}", "{line_text}", "%s", "%(x)s", "100%", "{{}}", "@tag{a} %d"]
+    for h in hostile:
+        for slot in ("message", "line_text", "reason"):
+            args = {"message": "Parser failure", "line_number": 7, "line_text": "  Given a step  ", "reason": "because"}
+            args[slot] = (h + " text") if slot != "line_text" else ("  " + h + " text  ")
+            it = Interp(ix, name="ParserError.make_annotated")
+            it.int_sat = 1000
+            st = State()
+            st.frames = []
+            outs = it.call_function(st, f, [args["message"], args["line_number"], args["line_text"], args["reason"]], {}, None)
+            chk.absorb(it)
+            chk.instance("E9")
+            bad = None
+            if len(outs) != 1:
+                raise AnalysisError("make_annotated not foldable on %r: %r" % (args, [(k, v) for _, k, v in outs][:3]))
+            _, k, v = outs[0]
+            if k == "raise":
+                bad = "raises %s" % v.clsname()
+            elif not isinstance(v, str):
+                raise AnalysisError("make_annotated(%r) does not fold to a string: %r" % (args, v))
+            else:
+                missing = [x for x in (args["message"], "7", args["line_text"].strip(), args["reason"]) if x not in v]
+                if missing:
+                    bad = "returns %r, which lacks %r" % (v, missing[0])
+            if bad is None:
+                chk.ok("E9", {"slot": slot, "text": h, "message": v}, nontrivial_key=(slot, h))
+            else:
+                chk.fail(Finding("E9", f.fullname, "%s=%r: %s" % (slot, h, bad.split(",")[0]),
+                                 "ParserError.make_annotated with %s = %r %s: a syntax error in a feature file whose offending text contains "
+                                 "such characters surfaces as an internal exception instead of a ParserError" % (slot, args[slot], bad),
+                                 file=f.file, line=f.lineno, stmt="def make_annotated"))
+
+
 def check_table_render_roundtrip(chk, ix):
     """P8 through the renderer itself: ModelDescriptor.describe_table on a concrete table, every rendered line fed to
     Parser.action_table: the re-parsed cells are the table's cells and all rendered lines have the same width."""
@@ -771,9 +950,8 @@ def check_termination(chk, ix):
         callees = set()
         for n in ast.walk(f.node):
             if isinstance(n, ast.While):
-                chk.instance("E6")
-                chk.fail(Finding("E6", f.fullname, "while loop", "while loop in the parser (termination not evident)",
-                                 file=f.file, line=n.lineno))
+                raise AnalysisError("E6: while loop in %s at line %d - termination of the parser is not decided by this rule any more "
+                                    "(it knows for-loops over the finite line sequence and an acyclic call graph)" % (f.fullname, n.lineno))
             if isinstance(n, ast.Call) and isinstance(n.func, ast.Attribute) and isinstance(n.func.value, ast.Name) \
                     and n.func.value.id == "self" and n.func.attr in pc.methods:
                 callees.add(n.func.attr)
